@@ -137,6 +137,22 @@ function runJob (job) {
           }
           for (const g of got) ev.frames.push(Object.assign({ mode }, g || {}))
         }
+      } else if (step.op === 'probe') {
+        // arbitrary positions of a file, translated through the public stack-trace API with fake call sites
+        const sites = step.positions.map(([l, c]) => ({
+          getFileName: () => step.file, getLineNumber: () => l, getColumnNumber: () => c,
+          getTypeName: () => null, getFunction: () => undefined, getFunctionName: () => 'f', getMethodName: () => null,
+          getEvalOrigin: () => undefined, isToplevel: () => true, isEval: () => false, isNative: () => false,
+          isConstructor: () => false, toString: () => 'f (' + step.file + ':' + l + ':' + c + ')'
+        }))
+        const saved = Error.prepareStackTrace
+        try {
+          const prep = pkg.getPrepareStackTrace((err, cs) => cs.map((c) => [c.getFileName(), c.getLineNumber(), c.getColumnNumber()]))
+          const out = prep(new Error('probe'), sites)
+          ev.results = step.positions.map(([l, c], i) => [l, c, String(out[i][0]), Number(out[i][1]), Number(out[i][2])])
+        } finally {
+          Error.prepareStackTrace = saved
+        }
       } else if (step.op === 'original') {
         // getOriginalPathAndLineFromSourceMap on a file the package knows nothing about / on disk
         const r = pkg.getOriginalPathAndLineFromSourceMap(step.file, step.line, step.col)
